@@ -180,9 +180,10 @@ class Check:
             # keep the smallest replay (first counterexample is usually simplest already)
 
     def _status(self, key):
+        # only 'known' entries count: a 'fixed' entry is a record and suppresses nothing
         for f in self.findings:
             k = f.get('key', '')
-            if k == key or (f.get('glob') and fnmatch.fnmatchcase(key, k)):
+            if f.get('status') == 'known' and (k == key or (f.get('glob') and fnmatch.fnmatchcase(key, k))):
                 return f
         return None
 
